@@ -15,7 +15,9 @@ RULE = ('generated specs with defaults on every defaultable type (boundary liter
         'the never-set field returns exactly the declared default (ready union instance for tags) and the '
         'class accepts that value on assignment. For every example the compiler computed (get_examples(), '
         'except the implicit catch-all one): json_compat_obj_decode(strict=True) succeeds and encoding the '
-        'result gives the same document. distinct = distinct (literal kind, constraint kind, type shape) cells')
+        'result gives the same document. Near misses: per spec a few defaults / examples that break one '
+        'declared constraint are compiled too; those the compiler refuses are only counted, any it accepts '
+        'is held to the same oracle (class accepts the default, example decodes strictly). distinct = distinct (literal kind, constraint kind, type shape) cells')
 ASSUMPTIONS = ['Bytes example literals are canonical base64 and Timestamp literals canonical for their format']
 REQUIRED_COUNTERS = ['defaults_checked', 'examples_checked']
 
@@ -25,7 +27,7 @@ def time_limit(tier):
 
 
 def budget(tier):
-    return dict(specs=120) if tier == 'quick' else dict(specs=5000)
+    return dict(specs=120, near=12) if tier == 'quick' else dict(specs=5000, near=16)
 
 
 def profile():
@@ -152,6 +154,106 @@ def run_shard(tier, seed, idx, n, res, tmp):
                             res.sample({'type': dt.name, 'label': label, 'example': ex.value}, cap=4)
         finally:
             case.close()
+        near_misses(res, m, case, ci, tmp, b)
+
+
+NEAR_MISS_RULES = ('default', 'example')
+
+
+def near_misses(res, m, case, ci, tmp, b):
+    """Defaults / examples that break one declared constraint.  The compiler normally
+    refuses them (that is C01's business and nothing is judged here); whenever it
+    *accepts* one, the accepted default / example is held to this property like any
+    other: the generated class must accept it too."""
+    import copy
+    import random
+    from ..gen import violations as gv, render as gr
+    from ..mon import pyrt
+    from stone.frontend.exception import InvalidSpec
+    from stone.backends.python_rsrc import stone_serializers as ss, stone_validators as bv
+    from stone.ir import data_types as D
+    rnd = random.Random(common.case_seed(PROPERTY, 'near', ci))
+    cands = []
+    for rule in gv.RULES:
+        if not any(k in rule.rule_name for k in NEAR_MISS_RULES):
+            continue
+        try:
+            sites = list(rule(m, rnd))
+        except Exception:
+            continue
+        if sites:
+            cands.append((rule.rule_name, rnd.choice(sites)))
+    rnd.shuffle(cands)
+    for rname, (ctx, apply) in cands[:b.get('near', 4)]:
+        m2 = copy.deepcopy(m)
+        try:
+            edit = apply(m2)
+            files = gr.render(m2, None)
+            if edit is not None:
+                files = edit(files, rnd)
+                if files is None:
+                    continue
+        except Exception:
+            res.skip('near_miss_not_applicable')
+            continue
+        res.evaluations += 1
+        try:
+            pkg = pyrt.Pkg(files, tmp)
+        except InvalidSpec:
+            res.count('near_miss_refused_by_compiler')
+            continue
+        except Exception as e:
+            res.skip('near_miss_compile_escape')     # C03's business
+            continue
+        res.count('near_miss_accepted_by_compiler')
+        replay = {'case': ci, 'near_miss_rule': rname, 'context': ctx, 'files': files}
+        try:
+            try:
+                for nsname in pkg.api.namespaces:
+                    pkg.mod(nsname)
+            except Exception as e:
+                res.violation({'kind': 'near_miss_package_unusable', 'rule': rname, 'exc': type(e).__name__},
+                              {'error': repr(e)[-300:]}, replay)
+                continue
+            for nsname, ns in pkg.api.namespaces.items():
+                for dt in ns.data_types:
+                    if isinstance(dt, D.Struct):
+                        for f in dt.fields:
+                            if not f.has_default:
+                                continue
+                            udt, _ = D.unwrap_aliases(f.data_type)
+                            if isinstance(udt, (D.Bytes, D.Timestamp)):
+                                continue        # recorded finding (emitted as text)
+                            res.count('near_miss_defaults_checked')
+                            obj = pkg.cls(nsname, dt.name)()
+                            try:
+                                got = getattr(obj, f.name)
+                                setattr(obj, f.name, got)
+                            except bv.ValidationError as e:
+                                res.violation({'kind': 'accepted_default_refused_by_class', 'rule': rname},
+                                              {'field': '%s.%s' % (dt.name, f.name), 'default': repr(f.default)[:80],
+                                               'error': str(e)[:200]}, replay)
+                            except Exception as e:
+                                res.violation({'kind': 'accepted_default_unusable', 'rule': rname,
+                                               'exc': type(e).__name__},
+                                              {'field': '%s.%s' % (dt.name, f.name), 'error': repr(e)[:200]}, replay)
+                    validator = pkg.validator(nsname, dt.name)
+                    for label, ex in dt.get_examples().items():
+                        if _contains_catch_all(ex.value):
+                            continue
+                        res.count('near_miss_examples_checked')
+                        try:
+                            ss.json_compat_obj_decode(validator, _plain(ex.value), strict=True)
+                        except bv.ValidationError as e:
+                            res.violation({'kind': 'accepted_example_refused', 'rule': rname,
+                                           'reason': _reason(str(e))},
+                                          {'type': dt.name, 'label': label, 'error': str(e)[:300],
+                                           'example': ex.value}, replay)
+                        except Exception as e:
+                            res.violation({'kind': 'accepted_example_decode_raised', 'rule': rname,
+                                           'exc': type(e).__name__}, {'error': repr(e)[:200]}, replay)
+        finally:
+            pkg.close()
 
 
 def _tag_owner(m, u, tag):
